@@ -546,7 +546,24 @@ def gen_mf_cases(ctx):
         else:
             kb = [k for k in keys if rng.random() < 0.6] or ["b"]
         out.append({"a": mk(ka), "b": mk(kb, alt=(mode == "dom")), "op": ["s_vdot", "addsub0", "addsub1", "badd", "bmul", "bsub"][i % 6]})
+    # round 6: MultiField.s_sum (my_sum left fold of Field.s_sum) and MultiField * scalar (scalar branch of
+    # MultiField._binary_op); own generator stream so that the cases above are unchanged
+    rng2 = ctx.rng(67)
+    for i in range(24 if ctx.quick else 120):
+        ks = [k for k in "abcd" if rng2.random() < 0.6] or ["c"]
+        sp = []
+        for k in ks:
+            d = pool[int(rng2.integers(0, len(pool)))]
+            dt = dtypes[int(rng2.integers(0, 3))]
+            sp.append([k, d, dt, gen_data(rng2, int(np.prod(Dom(d).sizes)), dt)])
+        cre, cim = int(rng2.integers(-3, 4)), (int(rng2.integers(-3, 4)) if rng2.random() < 0.5 else 0)
+        out.append({"a": sp, "b": sp, "op": ["s_sum", "smul", "smul_s_sum"][i % 3], "c": [cre, cim]})
     return out
+
+
+def mf_scalar(case):
+    cre, cim = case["c"]
+    return complex(cre, cim) if cim else float(cre)
 
 
 def mf_run(case):
@@ -555,6 +572,12 @@ def mf_run(case):
     try:
         if case["op"] == "s_vdot":
             return ("val", complex(a.s_vdot(b)))
+        if case["op"] == "s_sum":
+            return ("val", complex(a.s_sum()))
+        if case["op"] == "smul":
+            return ("mf", a * mf_scalar(case))
+        if case["op"] == "smul_s_sum":
+            return ("val", complex((a * mf_scalar(case)).s_sum()))
         if case["op"] in ("badd", "bmul", "bsub"):
             return ("mf", {"badd": lambda: a + b, "bmul": lambda: a * b, "bsub": lambda: a - b}[case["op"]]())
         r = a.flexible_addsub(b, case["op"] == "addsub1")
@@ -566,6 +589,12 @@ def mf_run(case):
 def mf_reference(case):
     da = {e[0]: (e[1], mk_array(Dom(e[1]), e[2], e[3]).astype(complex)) for e in case["a"]}
     db = {e[0]: (e[1], mk_array(Dom(e[1]), e[2], e[3]).astype(complex)) for e in case["b"]}
+    if case["op"] == "s_sum":
+        return ("val", sum(da[k][1].sum() for k in da))
+    if case["op"] == "smul":
+        return ("mf", {k: da[k][1] * mf_scalar(case) for k in da})
+    if case["op"] == "smul_s_sum":
+        return ("val", sum((da[k][1] * mf_scalar(case)).sum() for k in da))
     if case["op"] == "s_vdot":
         if sorted(da) != sorted(db) or any(da[k][0] != db[k][0] for k in da):
             return ("err",)
@@ -596,7 +625,7 @@ def mf_direct_failure(case, out):
     if out[0] == "err":
         return "raised %s" % out[1]
     if ref[0] == "val":
-        return None if abs(out[1] - ref[1]) <= 1e-9 * (1 + abs(ref[1])) else "s_vdot differs from the NumPy reference"
+        return None if abs(out[1] - ref[1]) <= 1e-9 * (1 + abs(ref[1])) else "%s differs from the NumPy reference" % case["op"]
     r = out[1]
     if sorted(r.keys()) != sorted(ref[1]):
         return "result keys %s instead of %s" % (sorted(r.keys()), sorted(ref[1]))
@@ -612,6 +641,15 @@ def mf_check_term(case, out):
         if out[0] == "err":
             return "match ms_vdot %s %s with None => true | Some _ => false end" % (a, b)
         return "match ms_vdot %s %s with Some v => cclose (q 0 1) v %s | None => false end" % (a, b, cval(out[1]))
+    if case["op"] in ("s_sum", "smul_s_sum"):
+        m = "ms_sum %s" % a if case["op"] == "s_sum" else "ms_sum (mbinop_scalar cmul %s %s)" % (a, cval(mf_scalar(case)))
+        if out[0] == "err":
+            return "match %s with None => true | Some _ => false end" % m
+        return "match %s with Some v => cclose (q 0 1) v %s | None => false end" % (m, cval(out[1]))
+    if case["op"] == "smul":
+        if out[0] == "err":
+            return "false"
+        return "mclose (q 0 1) (mbinop_scalar cmul %s %s) %s" % (a, cval(mf_scalar(case)), mf_result_coq(out[1], {e[0]: e[1] for e in case["a"]}))
     if case["op"] in ("badd", "bmul", "bsub"):
         fn = {"badd": "cadd", "bmul": "cmul", "bsub": "csub"}[case["op"]]
         if out[0] == "err":
@@ -675,7 +713,7 @@ class C06(C.Check):
     coq_dir = "C06"
     trusted_base = [
         "Coq 8.16.1 kernel (coqc, vm_compute for the correspondence evaluation)",
-        "hand-written model coq/C06/Model.v of Field.weight/sum/prod/integrate/mean/var/vdot/_binary_op, DomainTuple.scalar_weight/total_volume, parse_spaces, MultiField.s_vdot/flexible_addsub (tied by correspondence, not by translation)",
+        "hand-written model coq/C06/Model.v of Field.weight/sum/prod/integrate/mean/var/vdot/_binary_op, DomainTuple.scalar_weight/total_volume, parse_spaces, MultiField.s_vdot/flexible_addsub/_binary_op/s_sum (tied by correspondence, not by translation)",
         "NumPy reshape (one axis per sub-domain; unit axes for contracted sub-domains) and the NumPy definitions mean = add.reduce / count, var = mean(|x - mean|^2)",
         "pixel volumes are read from the implementation (dvol / scalar_dvol) and given to the model as exact rationals; the geometry itself is C08",
         "exact arithmetic: dtypes and float rounding are outside the model (dyadic volumes + small integer data => float64 exact; otherwise compared within 2^-40 * scale, the comparison done in Q inside Coq)",
@@ -728,7 +766,7 @@ class C06(C.Check):
             dist[key] = dist.get(key, 0) + 1
         res.coverage.update({
             "evaluations": len(checks), "distinct_nontrivial": distinct,
-            "rule": "operands in 5 memory layouts (C, Fortran, strided view, moved axes, real part of a complex buffer; all pairs for dot products); domain tuples of 1-3 sub-domains drawn from %d space kinds (RG 1-D/2-D, harmonic RG, HP, LM, DOF, GL, power spaces, unstructured), every subset of sub-domains in None/int/tuple form plus an out-of-range and a repeated index, ops sum/prod/integrate/mean/var/weight(p)/vdot/s_*/binary ops with field (same or different domain) and scalar operands, int/float/complex data in -3..3; MultiField s_vdot and flexible_addsub on overlapping key sets; non-trivial = more than one sub-domain and a value returned; distinct by (domain, op, spaces, dtype)" % len(SPACE_POOL),
+            "rule": "operands in 5 memory layouts (C, Fortran, strided view, moved axes, real part of a complex buffer; all pairs for dot products); domain tuples of 1-3 sub-domains drawn from %d space kinds (RG 1-D/2-D, harmonic RG, HP, LM, DOF, GL, power spaces, unstructured), every subset of sub-domains in None/int/tuple form plus an out-of-range and a repeated index, ops sum/prod/integrate/mean/var/weight(p)/vdot/s_*/binary ops with field (same or different domain) and scalar operands, int/float/complex data in -3..3; MultiField s_vdot, binary ops and flexible_addsub on overlapping key sets, MultiField s_sum / (mf * scalar) / (mf * scalar).s_sum with real and complex scalars; non-trivial = more than one sub-domain and a value returned; distinct by (domain, op, spaces, dtype)" % len(SPACE_POOL),
             "samples": [{"dom": c["dom"], "op": c["op"], "spaces": c.get("spaces"), "dtype": c["dtype"], "impl": (out[1].tolist() if out[0] == "val" else out[1])}
                         for c, D, out in self.obs[3:6]],
             "input_distribution": dist,
